@@ -12,8 +12,9 @@ FUNCTIONS = ["sigpy.alg.Alg.update/done (CrossHair, symbolic max_iter)", "sigpy.
              "sigpy.app.App.run / LinearLeastSquares._output", "sigpy.app.MaxEig (PowerMethod)"]
 BOUNDS = {"quick": "tol = 0, max_iter in {0..3}; CG (2x2 SPD, b, x0 symbolic), GradientMethod (plain / l1, accelerated or not, 1-2 unknowns), PDHG (1x1, l1 / none, "
                    "zero and symbolic initialisation, symbolic steps); PowerMethod on rational Hermitian PSD 2x2 / 3x3 with symbolic unit start vector; "
+                   "inductive stopping harnesses (arbitrary solver state -> one update) also with an ARBITRARY 1x1 / 2x1 operator (every entry a solver variable); "
                    "CrossHair: max_iter <= 12 symbolic", "thorough": "adds 2-unknown PDHG, preconditioned CG, max_iter 4"}
-OUTSIDE = ["SDMM, NewtonsMethod, GerchbergSaxton, AltMin, AugmentedLagrangianMethod early-stop rules (not used by the linear apps)",
+OUTSIDE = ["arbitrary (symbolic) operators of 2x2 and larger, and 2x1 with l1 for PDHG (z3 answers unknown)", "SDMM, NewtonsMethod, GerchbergSaxton, AltMin, AugmentedLagrangianMethod early-stop rules (not used by the linear apps)",
            "tol > 0 (then stopping is by design approximate)", "progress-bar / timing code of App.run"]
 ASSUMPTIONS = ["problem data and initial points arbitrary (symbolic); step sizes > 0; exact real arithmetic"]
 EXPLANATION = ("C15: (CrossHair) the canonical loop performs exactly max_iter updates, iter advancing by one, for every max_iter <= 12; (symbolic engine) "
@@ -29,6 +30,14 @@ def _pos(V, name):
 
 
 def _mat(rows, V):
+    if isinstance(rows, str):
+        # "sym<m><n>": ARBITRARY real m x n matrix, every entry a solver variable
+        m_, n_ = int(rows[3]), int(rows[4])
+        M = np.empty((m_, n_), dtype=object if V.symbolic else np.float64)
+        for i in range(m_):
+            for j in range(n_):
+                M[i, j] = V.scalar("a%d%d" % (i, j))
+        return M
     if V.symbolic:
         return S.lift_array(np.array([[Fraction(e) for e in r] for r in rows], dtype=object))
     return np.array(rows, dtype=np.float64)
@@ -239,6 +248,13 @@ def configs(tier, seed):
         for g in ("none", "l1"):
             for acc in (False, True):
                 add("gm_state", "%s:g=%s:acc=%s" % (Aname, g, acc), A=Am, g=g, acc=acc, cost=30)
+    # inductive stopping harnesses with an ARBITRARY operator (every entry of A a solver variable)
+    for Am in ("sym11", "sym21"):     # ("sym22": z3 answers unknown on the stopping obligation - outside)
+        for g in ("none", "l1"):
+            if not (Am == "sym21" and g == "l1"):      # z3 unknown on 4 of 15 paths: outside
+                add("pdhg_state", "%s:g=%s" % (Am, g), A=Am, g=g, cost=100)
+            for acc in (False, True):
+                add("gm_state", "%s:g=%s:acc=%s" % (Am, g, acc), A=Am, g=g, acc=acc, cost=100)
     for solver in ("ConjugateGradient", "GradientMethod"):
         for mi in ((0, 1, 2) if (solver == "ConjugateGradient" or full) else (0, 1)):
             add("apprun", "%s:max_iter=%d" % (solver, mi), A=[[2, 1], [0, 1]], solver=solver, max_iter=mi)
